@@ -104,7 +104,10 @@ class Timer:
 
     def stop(self) -> None:
         """Stops the timer and resets it."""
-        self._end_time = time.monotonic()
+        # Only a running timer can be stopped, a stopped timer keeps the state
+        #   it had when it was (first) stopped
+        if self._start_time is not None and self._end_time is None:
+            self._end_time = time.monotonic()
 
     @property
     def timeout(self) -> float | None:
